@@ -133,6 +133,10 @@ pub enum MapOp {
     Serde(usize, #[allow(dead_code)] u8),
     /// deserialize from a deserializer that offers a boolean: the visitor's `expecting` text
     SerdeWrong,
+    /// deserialize a token stream given in the line (entries in that order, repeats allowed) into the
+    /// register: hint behaviour of the deserializer, (class, value) per entry
+    #[allow(dead_code)]
+    Deser(u8, Vec<(u16, i32)>),
 }
 
 #[derive(Clone, Debug)]
@@ -180,6 +184,8 @@ pub enum SetOp {
     Serde(usize, #[allow(dead_code)] u8),
     /// deserialize from a deserializer that offers a boolean: the visitor's `expecting` text
     SerdeWrong,
+    #[allow(dead_code)]
+    Deser(u8, Vec<u16>),
 }
 
 #[derive(Clone, Debug)]
@@ -408,6 +414,16 @@ fn map_op(a: &[&str]) -> Option<MapOp> {
         ["serde", d] => MapOp::Serde(mreg(d)?, 0),
         ["serde", d, f] => MapOp::Serde(mreg(d)?, 1 + f.strip_prefix("tok")?.parse::<u8>().ok()?),
         ["serde_wrong"] => MapOp::SerdeWrong,
+        ["deser", h, xs] => {
+            let ps: Option<Vec<(u16, i32)>> = list(xs)?
+                .into_iter()
+                .map(|it| {
+                    let (a, b) = it.split_once('=')?;
+                    Some((a.parse().ok()?, b.parse().ok()?))
+                })
+                .collect();
+            MapOp::Deser(h.parse().ok()?, ps?)
+        }
         ["eq", o] => MapOp::Eq(mreg(o)?),
         ["from_iter", p, xs] => {
             crate::ctl::with(|c| c.hint_mode = p.parse().unwrap_or(0));
@@ -460,6 +476,10 @@ fn set_op(a: &[&str]) -> Option<SetOp> {
         ["serde", d] => SetOp::Serde(sreg(d)?, 0),
         ["serde", d, f] => SetOp::Serde(sreg(d)?, 1 + f.strip_prefix("tok")?.parse::<u8>().ok()?),
         ["serde_wrong"] => SetOp::SerdeWrong,
+        ["deser", h, xs] => {
+            let ps: Option<Vec<u16>> = list(xs)?.into_iter().map(|it| it.parse().ok()).collect();
+            SetOp::Deser(h.parse().ok()?, ps?)
+        }
         ["eq", o] => SetOp::Eq(sreg(o)?),
         ["from_iter", p, xs] => {
             crate::ctl::with(|c| c.hint_mode = p.parse().unwrap_or(0));
